@@ -21,6 +21,7 @@ from exabgp.bgp.message.action import Action
 from exabgp.bgp.message.message import Message
 from exabgp.bgp.message.notification import Notify
 from exabgp.bgp.message.update.attribute import MPRNLRI, MPURNLRI, Attribute, AttributeCollection
+from exabgp.bgp.message.update.attribute.attribute import TreatAsWithdraw
 from exabgp.bgp.message.update.nlri import NLRI, MPNLRICollection
 from exabgp.bgp.message.update.nlri.label import Label
 from exabgp.bgp.message.update.nlri.ipvpn import IPVPN
@@ -660,6 +661,17 @@ class UpdateCollection(Message):
         if reach is not None and isinstance(reach, MPRNLRI):
             # MP_REACH_NLRI contains nexthop - use iter_routed() for RoutedNLRI
             announces.extend(reach.iter_routed())
+
+        if announces and Attribute.CODE.INTERNAL_TREAT_AS_WITHDRAW not in attributes:
+            # RFC 7606 3.d: routes announced without a well-known mandatory attribute (ORIGIN, AS_PATH, and
+            # NEXT_HOP when the NLRI field is used) are treat-as-withdraw; the MANDATORY flag was never consulted
+            mandatory = [Attribute.CODE.ORIGIN, Attribute.CODE.AS_PATH]
+            if announced_view:
+                mandatory.append(Attribute.CODE.NEXT_HOP)
+            for code in mandatory:
+                if code not in attributes:
+                    attributes.add(TreatAsWithdraw(code))
+                    break
 
         if Attribute.CODE.INTERNAL_TREAT_AS_WITHDRAW in attributes:
             # RFC 7606 2: a malformed attribute of the treat-as-withdraw class means every route of the
